@@ -4,7 +4,7 @@ import math
 from hypothesis import strategies as st
 
 from .. import repo, strategies as S
-from ..core import SubCheck, Fail, Discard, metric, target
+from ..core import SubCheck, Fail, Discard, metric, target, is_seq
 
 RULE = ("Hypothesis strategies over (lat, lon, h, ellipsoid, angle notation) and over Cartesian points in all "
         "octants incl. points exactly in the coordinate planes through the axis and down to 1e-12 m from it; floats, ints (all three "
@@ -60,7 +60,7 @@ def check_forward(case):
         got = cv.llh2xyz(lat_o, lon_o, ellht=S.as_kind(case["h"], nk))
     else:
         got = cv.llh2xyz(lat_o, lon_o, S.as_kind(case["h"], nk), ell)
-    if not (isinstance(got, tuple) and len(got) == 3):
+    if not is_seq(got, 3):
         raise Fail("llh2xyz did not return an (x, y, z) tuple", observed=repr(got))
     want = closed_form(lat, lon, case["h"], a, invf)
     d = _dist(got, want)
@@ -71,9 +71,9 @@ def check_forward(case):
                    expected={"xyz": want, "tol_m": 1e-6}, observed={"xyz": got, "dist_m": d})
     if case["kind"] != "float" or (case.get("kind2") or "float") != "float":
         plain = cv.llh2xyz(lat, lon, case["h"], ell)
-        if tuple(plain) != tuple(got):
+        if not _dist(plain, got) <= 1e-7:         # a tenth of the stated micrometre: rounding-level route differences pass
             raise Fail("llh2xyz with angle objects differs from the call with their decimal values",
-                       expected=plain, observed=got)
+                       expected=list(plain), observed=list(got))
 
 
 def _check_inverse_xyz(x, y, z, case):
@@ -91,7 +91,7 @@ def _check_inverse_xyz(x, y, z, case):
         got = cv.xyz2llh(x=S.as_kind(x, nk), y=S.as_kind(y, nk), z=S.as_kind(z, nk), ellipsoid=ell)
     else:
         got = cv.xyz2llh(S.as_kind(x, nk), S.as_kind(y, nk), S.as_kind(z, nk), ell)
-    if not (isinstance(got, tuple) and len(got) == 3):
+    if not is_seq(got, 3):
         raise Fail("xyz2llh did not return (lat, lon, h)", observed=repr(got))
     lat, lon, h = got
     if not (-90.0 <= lat <= 90.0):
